@@ -1,6 +1,6 @@
 """Property -> rules."""
 from .prog import Program
-from . import rules_cg, lalr
+from . import rules_cg, lalr, rules_dispatch
 
 _progs = {}
 
@@ -15,6 +15,7 @@ def c02(chk, tier):
     chk.explanation = ("Static: (1) R-NOEXIT call-graph reachability of process terminators from the public API.")
     rules_cg.r_noexit(P(), chk)
     lalr.r_lalr(P(), chk)
+    rules_dispatch.r_dispatch(P(), chk, "C02")
 
 
 def c05(chk, tier):
@@ -27,7 +28,14 @@ def c17(chk, tier):
     rules_cg.r_global(P("nopool"), chk, "C17")
 
 
+def c04(chk, tier):
+    chk.explanation = "Static: R-DISPATCH/text sibling agreement of the writers' per-type branches (EDPE)."
+    disp = rules_dispatch.r_dispatch(P(), chk, "C04")
+    rules_dispatch.r_dispatch_text(P(), chk, disp)
+
+
 PROPS = {
+    "C04": ("other", c04),
     "C02": ("other", c02),
     "C05": ("other", c05),
     "C17": ("other", c17),
